@@ -2,13 +2,13 @@
    Only statements closed by [exact lemma], their non-vacuity examples, refutation witnesses for the classes
    excluded by a guard, and Print Assumptions.
    lib_*  = bitcoinlib/keys.py (Signature.create / parse_bytes / __init__ / verify, sign, verify) with the repairs
-            fixes/C13-1 (integer division in the low-S step) and fixes/C13-2 (DER dispatch for every length but 64)
-            applied; *_prefix = the code before them; spec_* / ecdsa_* / g_* = SEC 1 ECDSA,
+            fixes/C13-1 (integer division in the low-S step), fixes/C13-2 (DER dispatch for every length but 64) and
+            fixes/C13-3 (public key given as hex text) applied; *_prefix = the code before them; spec_* / ecdsa_* / g_* = SEC 1 ECDSA,
             BIP62/146 low S, BIP66 strict DER. *)
 From Coq Require Import ZArith List Bool Znumtheory.
 From Coq.Strings Require Import Byte.
 From Verif Require Import Lib.Bytes Crypto.Sha256 Crypto.Secp256k1 Crypto.EcdsaAlgebra.
-From Verif Require Import Model.Der Model.Ecdsa Proofs.Der Proofs.Ecdsa Proofs.EcdsaWitness.
+From Verif Require Import Model.Der Model.Ecdsa Proofs.Der Proofs.Ecdsa Proofs.EcdsaWitness Proofs.EcdsaSession.
 Import ListNotations.
 Open Scope Z_scope.
 
@@ -205,6 +205,97 @@ Example lib_verify_key_bytes_witness :
   spec_verify_key (lib_z w4_dg) w4_sig (x02 :: be_bytes 32 1) = Some true.
 Proof. exact w4_key_bytes_refused. Qed.
 
+(* --- sessions: sign and verify are FUNCTIONS of their arguments also when one process signs many requests and one
+       Signature object is verified again and again.  lib_sign_session / lib_verify_session are folds over the
+       list of calls that carry the state the code keeps (nothing for signing; the attributes _txid, x, y,
+       _public_key of the Signature object for verifying).  The correspondence runs whole sessions against the
+       real library in one process / on one object (requests signseq, vseq); a cache or a remembered attribute
+       that reaches an answer breaks it.  NOT claimed: that RFC 6979 nonces of different (key, digest) pairs
+       differ (HMAC pseudo-randomness) — the harness checks that on the enumerated colliding pairs. --- *)
+Theorem sign_session_is_function : forall reqs, lib_sign_session reqs = map lib_sign_req reqs.
+Proof. exact sign_session_is_map. Qed.
+
+(* the answer to a request does not depend on what the process signed before or signs afterwards *)
+Theorem sign_session_position_independent : forall pre q post,
+  nth_error (lib_sign_session (pre ++ q :: post)) (length pre) = Some (lib_sign_req q).
+Proof. exact sign_session_position. Qed.
+
+(* the same request asked twice in one process gets the same answer twice, whatever is signed in between *)
+Theorem sign_session_repeatable : forall pre q mid post,
+  nth_error (lib_sign_session (pre ++ q :: mid ++ q :: post)) (length pre) =
+  nth_error (lib_sign_session (pre ++ q :: mid ++ q :: post)) (length pre + 1 + length mid).
+Proof. exact sign_session_repeat. Qed.
+
+Theorem sign_session_all_low_s : forall reqs i r s enc,
+  nth_error (lib_sign_session reqs) i = Some (Some (r, s, enc)) -> 1 <= r < secp_n /\ 1 <= s <= (secp_n - 1) / 2.
+Proof. exact sign_session_low_s. Qed.
+
+Example sign_session_witness :
+  exists a a', a <> a' /\ a <> None /\ lib_sign_session [w10_q; w10_q'; w10_q] = [a; a'; a].
+Proof. exact w10_sign_session. Qed.
+
+(* ONE Signature object — from sign(), from parsing (with or without public_key=), from Signature(r, s, ..) —
+   verified against a sequence of (digest, key) pairs, both given each time: every verdict is the stateless
+   verifier on (r, s, digest, key); the digest and key remembered from earlier calls never reach it *)
+Theorem verify_session_is_function : forall src steps, forallb explicit_step steps = true ->
+  lib_verify_session src steps =
+  match src_values src with
+  | Some (r, s) => Some (map (stateless_step r s) steps)
+  | None => None
+  end.
+Proof. exact lib_verify_session_explicit. Qed.
+
+Theorem signed_object_session : forall q r s enc steps, lib_sign_req q = Some (r, s, enc) ->
+  forallb explicit_step steps = true ->
+  lib_verify_session (SrcSign q) steps = Some (map (stateless_step r s) steps).
+Proof. exact signed_session_explicit. Qed.
+
+(* ... and for an object parsed from bytes, keys in SEC form (Key / HDKey object, bytes or hex text), outside the two recorded signature classes: standard
+   ECDSA at EVERY step of the session *)
+Theorem verify_session_exact : forall sig key o steps,
+  lib_new_obj (SrcBytes sig key) = Some o -> der64 sig = false -> lax_der sig = false ->
+  forallb sec_step steps = true -> forallb (fun st => negb (length (fst (sec_step_args st)) =? 0)%nat) steps = true ->
+  lib_verify_session (SrcBytes sig key) steps =
+  Some (map (fun st => spec_verify_key (lib_z (fst (sec_step_args st))) sig (snd (sec_step_args st))) steps).
+Proof. exact parsed_session_exact. Qed.
+
+(* omitted arguments are answered from what the object remembers: after a call that returned a verdict, verify()
+   returns that verdict again and changes nothing; verify(txid') judges txid' under the key of that call *)
+Theorem verify_defaults_replay : forall o dg a o' b,
+  obj_verify o (Some dg, Some a) = (o', Some b) -> obj_verify o' (None, None) = (o', Some b).
+Proof. exact obj_verify_replay. Qed.
+
+Theorem verify_defaults_keep_key : forall o dg a o' b dg',
+  obj_verify o (Some dg, Some a) = (o', Some b) ->
+  snd (obj_verify o' (Some dg', None)) = lib_verify_step (so_r o) (so_s o) dg' a.
+Proof. exact obj_verify_keeps_key. Qed.
+
+(* own key (bytes), negated key (Key object), own key (hex text), no arguments — on one object; and the same steps on an object that was parsed
+   WITH the negated key: same verdicts; the hypotheses of verify_session_exact hold for these steps *)
+Example verify_session_witness :
+  lib_verify_session (SrcBytes w3_strict None) (w8_steps ++ [(None, None)]) =
+    Some [Some true; Some false; Some true; Some true] /\
+  lib_verify_session (SrcBytes w3_strict (Some (KBytes w8_pk_neg))) w8_steps = Some [Some true; Some false; Some true] /\
+  forallb sec_step w8_steps = true /\
+  forallb (fun st => negb (length (fst (sec_step_args st)) =? 0)%nat) w8_steps = true /\
+  map (fun st => spec_verify_key (lib_z (fst (sec_step_args st))) w3_strict (snd (sec_step_args st))) w8_steps =
+    [Some true; Some false; Some true].
+Proof. exact w8_session. Qed.
+
+(* a public key handed over as hex text (fix C13-3) is judged exactly like the same key handed over as bytes *)
+Theorem verify_text_key_is_bytes_key : forall r s dg pk,
+  lib_verify_step r s dg (KText pk) = lib_verify_step r s dg (KBytes pk).
+Proof. exact text_key_is_bytes_key. Qed.
+
+(* fixed finding text_key_rejected: before fix C13-3 the public key as hex text (a documented argument type) was
+   refused with an exception although the triple is valid; the repaired code accepts it *)
+Example verify_text_key_prefix_refuted :
+  lib_verify_step_prefix w3_r w3_r w3_dg (KText w8_pk) = None /\
+  lib_verify_step w3_r w3_r w3_dg (KText w8_pk) = Some true /\
+  lib_verify_step w3_r w3_r w3_dg (KBytes w8_pk) = Some true /\
+  spec_verify_key (lib_z w3_dg) w3_strict w8_pk = Some true.
+Proof. exact w9_text_key. Qed.
+
 Print Assumptions sign_verifies.
 Print Assumptions executable_is_generic.
 Print Assumptions lib_sign_verifies.
@@ -221,3 +312,13 @@ Print Assumptions lib_verify_exact.
 Print Assumptions lib_pub_point_exact.
 Print Assumptions lib_verify_point_exact.
 Print Assumptions lib_parse_exact.
+Print Assumptions sign_session_is_function.
+Print Assumptions sign_session_position_independent.
+Print Assumptions sign_session_repeatable.
+Print Assumptions sign_session_all_low_s.
+Print Assumptions verify_session_is_function.
+Print Assumptions signed_object_session.
+Print Assumptions verify_session_exact.
+Print Assumptions verify_defaults_replay.
+Print Assumptions verify_defaults_keep_key.
+Print Assumptions verify_text_key_is_bytes_key.
